@@ -48,6 +48,16 @@ AtanC(x, b, P) ==
   IF BeyondHalfPi(b) THEN (IF b.neg THEN 1 ELSE -1)
   ELSE LET sc == SinCosRad(b, P) IN BCmp(BSub(BMulDy(sc[2], x, P), sc[1], P), DyZero)
 
+\* y = atan2(yy, xx) against a boundary b
+Atan2C(yy, xx, b, P) ==
+  IF BCmp(PiBall, DyAbs(b)) = -1 THEN (IF b.neg THEN 1 ELSE -1)             \* |b| > pi
+  ELSE LET sc == SinCosRad(b, P)
+           cross == BSub(BMulDy(sc[2], yy, P), BMulDy(sc[1], xx, P), P)      \* y cos b - x sin b
+           dot == BAdd(BMulDy(sc[2], xx, P), BMulDy(sc[1], yy, P), P)        \* x cos b + y sin b
+       IN IF BCmp(dot, DyZero) = -1 THEN 3
+          ELSE IF BCmp(dot, DyZero) # 1 THEN 0
+          ELSE BCmp(cross, DyZero)
+
 Inv(N, ES, r, k, C(_)) == IF IsNaR(N, r) THEN "wrong" ELSE Verdict(N, ES, r, k, FALSE, C)
 
 AbsLe1(x) == DyCmpMag(x, DyOne) <= 0
@@ -140,7 +150,15 @@ V15(op, N, ES, a, b2, r, P) ==
                    ELSE LET kk == DyNearInt(DyMul(t.c, Dy(FALSE, FromInt(774541003), -29)))
                             u == BSub(t, BMulDy(Ln2Ball, DyInt(kk), P + 16), P + 16)
                         IN Fwd(N, ES, r, k, FALSE, BShift(ExpBall(u, P), kk)))
-        ELSE "ok"   \* atan2: totality only (C16); the quadrant conventions are not specified here
+        ELSE
+             \* atan2(y = a, x = b2): the angle theta in (-pi, pi] of the point (x, y).  With rho > 0,
+             \* sin(theta - b) = (y cos b - x sin b)/rho and cos(theta - b) = (x cos b + y sin b)/rho: while the
+             \* boundary b is within a quarter turn of theta the first decides theta <> b; a boundary that is
+             \* not (second <= 0) means the result is nowhere near.  (0, 0) is a convention: not judged.
+             (IF DyIsZero(x) /\ DyIsZero(z) THEN "ok"
+              ELSE IF DyIsZero(x) /\ ~z.neg THEN Exact(N, ES, r, k, DyZero)
+              ELSE IF IsNaR(N, r) THEN "wrong"
+              ELSE Verdict(N, ES, r, k, FALSE, LAMBDA b : Atan2C(x, z, b, P)))
   ELSE IF nar THEN NaRRule(N, TRUE, r)
   ELSE IF ~InDomain(op, x) THEN "ok"
   ELSE
@@ -167,4 +185,40 @@ V15(op, N, ES, a, b2, r, P) ==
                       ELSE Inv(N, ES, r, k, LAMBDA b : AtanC(x, b, P))
     [] op = "cbrt" -> IF IsNaR(N, r) THEN "wrong"
                       ELSE Verdict(N, ES, r, k, DyIsZero(x), LAMBDA b : ExactC(x, DyMul(b, DyMul(b, b))))
+
+-----------------------------------------------------------------------------
+(* The mathematical constants (MathConsts / FloatConst): each must be the correct rounding of *)
+(* the constant it names.  Not one of the listed properties -- specified because the API has   *)
+(* them; decided with the same enclosures.                                                     *)
+ConstBall(name, P) ==
+  CASE name = "PI" -> PiBall
+    [] name = "FRAC_PI_2" -> BShift(PiBall, -1)
+    [] name = "FRAC_PI_4" -> BShift(PiBall, -2)
+    [] name = "FRAC_PI_8" -> BShift(PiBall, -3)
+    [] name = "FRAC_PI_3" -> BDivInt(PiBall, 3, P)
+    [] name = "FRAC_PI_6" -> BDivInt(PiBall, 6, P)
+    [] name = "FRAC_1_PI" -> BDiv(BExact(DyOne), PiBall, P)
+    [] name = "FRAC_2_PI" -> BDiv(BExact(DyInt(2)), PiBall, P)
+    [] name = "LN_2" -> Ln2Ball
+    [] name = "LN_10" -> LnDy(DyInt(10), P)
+    [] name = "LOG2_E" -> BDiv(BExact(DyOne), Ln2Ball, P)
+    [] name = "LOG10_E" -> BDiv(BExact(DyOne), LnDy(DyInt(10), P), P)
+    [] name = "LOG2_10" -> Log2Dy(DyInt(10), P)
+    [] name = "LOG10_2" -> BDiv(Ln2Ball, LnDy(DyInt(10), P), P)
+    [] name = "E" -> ExpDy(DyOne, P)
+ConstNames == {"PI", "FRAC_PI_2", "FRAC_PI_4", "FRAC_PI_8", "FRAC_PI_3", "FRAC_PI_6", "FRAC_1_PI", "FRAC_2_PI",
+               "LN_2", "LN_10", "LOG2_E", "LOG10_E", "LOG2_10", "LOG10_2", "E"}
+\* sqrt(2), 1/sqrt(2), 2/sqrt(pi): algebraic comparisons with the cell boundaries b (all positive)
+ConstVerdict(name, N, ES, r, P) ==
+  IF IsNaR(N, r) THEN "wrong"
+  ELSE IF name \in ConstNames THEN
+       LET Y == ConstBall(name, P) IN Verdict(N, ES, r, 0, FALSE, LAMBDA b : BCmp(Y, b))
+  ELSE IF name = "SQRT_2" THEN
+       Verdict(N, ES, r, 0, FALSE, LAMBDA b : IF b.neg THEN 1 ELSE ExactC(DyInt(2), DyMul(b, b)))
+  ELSE IF name = "FRAC_1_SQRT_2" THEN
+       Verdict(N, ES, r, 0, FALSE, LAMBDA b : IF b.neg THEN 1 ELSE ExactC(DyPow2(-1), DyMul(b, b)))
+  ELSE IF name = "FRAC_2_SQRT_PI" THEN
+       \* y = 2/sqrt(pi):  y > b  <=>  4 > pi b^2
+       Verdict(N, ES, r, 0, FALSE, LAMBDA b : IF b.neg \/ DyIsZero(b) THEN 1 ELSE BCmp(BNeg(BMulDy(PiBall, DyMul(b, b), P)), DyInt(-4)))
+  ELSE "ok"
 =======================================================================
